@@ -70,6 +70,25 @@ func (v *VUrl) validate(value string) *VUrl {
 	if queryIndex != -1 {
 		urlQuery = decUrl[queryIndex+1:]
 	}
+	// 规则中有 required 但 url 中没有的参数(缺失等同于空)
+	hadKeys := make(map[string]struct{})
+	if urlQuery != "" {
+		for _, query := range strings.Split(urlQuery, "&") {
+			hadKeys[strings.Split(query, "=")[0]] = struct{}{}
+		}
+	}
+	for _, key := range sortedRuleKeys(v.ruleObj) {
+		if _, ok := hadKeys[key]; ok {
+			continue
+		}
+		for _, cusMsg := range requiredMsgs(v.ruleObj.Get(key)) {
+			if cusMsg != "" {
+				v.errBuf.WriteString(GetJoinValidErrStr("", key, "", cusMsg))
+				continue
+			}
+			v.errBuf.WriteString(GetJoinValidErrStr("", key, "", ExplainEn, "it is", Required))
+		}
+	}
 	if urlQuery == "" {
 		return v
 	}
